@@ -48,10 +48,16 @@ DerivedOK(r, PI) == \A x \in ToSet(r.obs.tk) : x.id \in DOMAIN PI =>
 \* C11 at track level (driver flag raw): the stored row of every live track carries the path the getter reports, the file name and
 \* extension (1.x: MetaData type 13; 2.x: fileType) derived from it, and (2.x) the origin columns of this database; SQLite's
 \* integrity and foreign-key checks are clean and verify() passes.
+\* ... and every stored performance blob decodes, as an independent reader judges it (BlobWF.tla): the frame is intact and the
+\* payload is a well-formed blob of its column's layout (a column that holds no blob at all is fine)
+BWF == INSTANCE BlobWF
+StoredBlobsOK(rw) ==
+    Has(rw, "sb") => \A b \in ToSet(rw.sb) : b.st = "absent" \/ (b.st = "ok" /\ BWF!WF(b.kind, b.n, b.p, b.c2))
 RawTracksOK(r, PI) ==
     Has(r.obs, "rawt") =>
         LET rw == r.obs.rawt IN
         /\ rw.integrity = "ok" /\ rw.fk = 0 /\ rw.verify = "ok"
+        /\ StoredBlobsOK(rw)
         /\ {x.id : x \in ToSet(rw.rows)} = ToSet(r.obs.tracks) /\ Len(rw.rows) = Len(r.obs.tracks)
         /\ \A x \in ToSet(rw.rows) :
               /\ x.ouuid /\ x.oid = x.id
